@@ -252,6 +252,24 @@ def oracle(spec):
                 pp.pipeflow(h, **dict(kw, mode="hydraulics"))
                 u = np.concatenate((h._pit["node"][:, PINIT], h._pit["branch"][:, MDOTINIT]))
                 pp.pipeflow(h, sol_vec=u, **dict(kw, mode="heat"))
+                # the same thermal-only run on the net that carries the whole history, with another calculation between the
+                # hydraulic run and the thermal one: every result table must equal the fresh net's (the thermal-only run's
+                # results must not depend on what was calculated before)
+                pp.pipeflow(net, **dict(kw, mode="hydraulics"))
+                u2 = np.concatenate((net._pit["node"][:, PINIT], net._pit["branch"][:, MDOTINIT]))
+                if len(net.sink):
+                    olds = net.sink.mdot_kg_per_s.values.copy()
+                    net.sink["mdot_kg_per_s"] = olds * 0.7
+                    try:
+                        pp.pipeflow(net, **dict(kw, mode="sequential"))
+                    except Exception:
+                        pass
+                    net.sink["mdot_kg_per_s"] = olds
+                pp.pipeflow(net, sol_vec=u2, **dict(kw, mode="heat"))
+                dd = bit_equal(net, h)
+                if dd:
+                    fails.append({"fingerprint": "C12:heat-only-run-depends-on-history", "clause": "results independent of what was calculated before",
+                                  "detail": {"first_difference": dd}})
                 # mode="heat" reports thermal results only: compare the temperatures
                 for t in oracles.res_tables(fresh):
                     keep = [c for c in fresh[t].columns if c in ("t_k", "t_from_k", "t_to_k", "t_outlet_k")]
